@@ -36,6 +36,9 @@ type Result struct {
 	BudgetMs  int64    `json:"-"` // solver budget of this obligation (item option timeout=<seconds>); 0 = default
 }
 
+// partSlots bounds the number of per-goal solver runs in flight (across all harnesses).
+var partSlots = make(chan struct{}, 10)
+
 type runCfg struct {
 	scratch string
 	timeout time.Duration
@@ -147,6 +150,9 @@ func RunHarness(p *Program, h *Harness, cfg runCfg) (res *Result) {
 			if h.Secondary && !o.st.specPhase {
 				continue // a panic inside the function under contract: reported by the primary harness
 			}
+			if !o.st.specPhase && h.Item.Options["sideonly"] != "" && !strings.Contains(","+h.Item.Options["sideonly"]+",", ",panic,") {
+				continue // panics of the body are checked by the item that keeps them
+			}
 			negGoals = append(negGoals, pc)
 			labels = append(labels, "panic: "+c.Show(o.val))
 		case ODiverge:
@@ -156,7 +162,30 @@ func RunHarness(p *Program, h *Harness, cfg runCfg) (res *Result) {
 			aborted = append(aborted, o.reason)
 		}
 	}
+	sideOnly, sideSkip := h.Item.Options["sideonly"], h.Item.Options["sideskip"]
+	sideClass := func(name string) string {
+		switch {
+		case strings.HasPrefix(name, "ghost assertion"):
+			return "assert"
+		case strings.Contains(name, "/loop#"):
+			return "loop"
+		case strings.HasPrefix(name, "precondition of"):
+			return "pre"
+		case strings.HasPrefix(name, "frame:"):
+			return "frame"
+		}
+		return "other"
+	}
 	for _, so := range x.side {
+		// option sideonly=assert / sideskip=assert: the obligations of the body are divided between several items
+		// about the same function (e.g. one instance per value of a hash fragment proves the ghost assertions,
+		// one generic item proves the loop invariants); every obligation must be kept by at least one item
+		if so.Body && sideOnly != "" && !strings.Contains(","+sideOnly+",", ","+sideClass(so.Name)+",") {
+			continue
+		}
+		if so.Body && sideSkip != "" && strings.Contains(","+sideSkip+",", ","+sideClass(so.Name)+",") {
+			continue
+		}
 		if h.Secondary && so.Body {
 			// raised by the execution of the function under contract, identical for every clause of the item:
 			// checked by the item's first clause (its primary harness) only
@@ -196,7 +225,13 @@ func RunHarness(p *Program, h *Harness, cfg runCfg) (res *Result) {
 		res.Reason = fmt.Sprintf("GOVC_EMIT: %d goals written", len(negGoals))
 		return
 	}
-	sr := Solve(q, cfg.scratch, h.Oblig, cfg.timeout)
+	var sr SolveResult
+	if len(negGoals) >= 24 && h.Item.Logical {
+		// many independent goals (split invariants, assertions): one query each from the start
+		sr = SolveResult{Status: "unknown", Solver: "per-goal"}
+	} else {
+		sr = Solve(q, cfg.scratch, h.Oblig, cfg.timeout)
+	}
 	if sr.Status == "unknown" && len(negGoals) > 1 {
 		// split: one query per path / side obligation
 		type pr struct {
@@ -204,12 +239,16 @@ func RunHarness(p *Program, h *Harness, cfg runCfg) (res *Result) {
 			sr SolveResult
 		}
 		ch := make(chan pr, len(negGoals))
-		sem := make(chan struct{}, 4)
+		sem := partSlots
+		queries := make([]string, len(negGoals))
+		for i := range negGoals {
+			queries[i] = c.Query(nil, []*Term{negGoals[i]}, []string{labels[i]})
+		}
 		for i := range negGoals {
 			go func(i int) {
 				sem <- struct{}{}
 				defer func() { <-sem }()
-				qi := c.Query(nil, []*Term{negGoals[i]}, []string{labels[i]})
+				qi := queries[i]
 				ch <- pr{i, Solve(qi, cfg.scratch, fmt.Sprintf("%s.part%d", h.Oblig, i), 2*cfg.timeout)}
 			}(i)
 		}
